@@ -54,7 +54,31 @@ func c10Cases(c *Ctx, w *World, me string, tag string, allEvents bool) []HistCas
 		sig["kind"] = kind
 		c.Fail(Failure{Property: "C10", Kind: kind, Signature: sig, What: what, Replay: rep})
 	}
-	// (1) every ordered pair (attacker S, victim P), every event, in every state where P is awaited
+	cases = append(cases, speaksForCases(w, me, roundA, hA, tag, report)...)
+	// (2) a genuine message of round A re-posted (by anyone) under round B, which is in the same state
+	for k := 1; k < len(hA); k++ {
+		g := hA[k].In.Msg
+		replay := g
+		replay.DkgRoundID = roundB
+		_, desc := w.sign(g.SenderAddr, g.Data)
+		items := append(append([]Item{}, hB[:k]...), mkItem(replay, desc, hA[k].In.Now, "replay-round"))
+		ev, pos := g.Event, k
+		cases = append(cases, HistCase{Kind: "replay-round", User: me, Items: items, PrefixKey: fmt.Sprintf("B%s/%d", tag, k), Check: func(o RunObs) {
+			if o.Classes[len(o.Classes)-1] == "ok" && o.Before != o.After {
+				report("cross-round-replay", map[string]interface{}{},
+					fmt.Sprintf("a genuine %s message of one round, re-posted under another round identifier, was accepted there", ev),
+					map[string]interface{}{"position": pos, "event": ev})
+			}
+		}})
+	}
+	return c10Rest(c, w, me, tag, allEvents, roundA, roundB, hA, hB, cases, report)
+}
+
+// speaksForCases: every ordered pair (attacker S, victim P), every event, in every state where P is
+// awaited: S posts, with its own valid signature, the request that names P.
+func speaksForCases(w *World, me string, roundA string, hA []Item, tag string,
+	report func(kind string, sig map[string]interface{}, what string, rep map[string]interface{})) []HistCase {
+	var cases []HistCase
 	for k := 1; k < len(hA); k++ {
 		victim := hA[k].In.Msg.SenderAddr
 		for _, attacker := range w.Users {
@@ -93,22 +117,11 @@ func c10Cases(c *Ctx, w *World, me string, tag string, allEvents bool) []HistCas
 			}
 		}
 	}
-	// (2) a genuine message of round A re-posted (by anyone) under round B, which is in the same state
-	for k := 1; k < len(hA); k++ {
-		g := hA[k].In.Msg
-		replay := g
-		replay.DkgRoundID = roundB
-		_, desc := w.sign(g.SenderAddr, g.Data)
-		items := append(append([]Item{}, hB[:k]...), mkItem(replay, desc, hA[k].In.Now, "replay-round"))
-		ev, pos := g.Event, k
-		cases = append(cases, HistCase{Kind: "replay-round", User: me, Items: items, PrefixKey: fmt.Sprintf("B%s/%d", tag, k), Check: func(o RunObs) {
-			if o.Classes[len(o.Classes)-1] == "ok" && o.Before != o.After {
-				report("cross-round-replay", map[string]interface{}{},
-					fmt.Sprintf("a genuine %s message of one round, re-posted under another round identifier, was accepted there", ev),
-					map[string]interface{}{"position": pos, "event": ev})
-			}
-		}})
-	}
+	return cases
+}
+
+func c10Rest(c *Ctx, w *World, me string, tag string, allEvents bool, roundA, roundB string, hA, hB []Item, cases []HistCase,
+	report func(kind string, sig map[string]interface{}, what string, rep map[string]interface{})) []HistCase {
 	// (3) a genuine message re-posted under another event name of the same request shape
 	swap := map[string]string{
 		"event_sig_proposal_confirm_by_participant": "event_sig_proposal_decline_by_participant",
@@ -149,3 +162,29 @@ func c10Cases(c *Ctx, w *World, me string, tag string, allEvents bool) []HistCas
 	_ = requests.DefaultRequest{}
 	return cases
 }
+
+// scenarioC05Node: unanimity at the node. A round advances on a participant's confirmation only when
+// that participant delivered it: in every phase every other participant posts, validly signed by
+// itself, the confirmation that names the awaited one - the node must refuse it and keep the round.
+func scenarioC05Node(c *Ctx) {
+	var cases []HistCase
+	worlds := [][3]int{{3, 2, 1}}
+	if !c.Quick() {
+		worlds = append(worlds, [3]int{2, 2, 2}, [3]int{4, 3, 3})
+	}
+	for wi, nt := range worlds {
+		w := NewWorld(nt[0], nt[1], nt[2])
+		me := w.Users[0]
+		tag := fmt.Sprintf("-c05-%d", wi)
+		round := "round-c05" + tag
+		report := func(kind string, sig map[string]interface{}, what string, rep map[string]interface{}) {
+			sig["kind"] = "confirmation-not-delivered-by-its-participant"
+			c.Fail(Failure{Property: "C05", Kind: sig["kind"].(string), Signature: sig, What: "a round took a participant's confirmation from somebody else: " + what, Replay: rep})
+		}
+		cases = append(cases, speaksForCases(w, me, round, w.Honest(round, me), tag, report)...)
+	}
+	runCases(c, cases)
+	c.Notes["histories"] = len(cases)
+}
+
+func init() { scenarios["c05node"] = scenarioC05Node }
